@@ -317,6 +317,7 @@ type FuncContract struct {
 	Requires  []Clause
 	Ensures   []Clause
 	NoWrap    bool
+	NoWrapArith bool // like nowrap, but conversions between integer types may truncate
 	NoPanic   bool
 	BV        bool
 	Inline    bool
@@ -354,7 +355,7 @@ var siteAssertRe = regexp.MustCompile(`:\s*assert\s+`)
 
 var clauseKeywords = map[string]bool{
 	"spec": true, "func": true, "extern": true, "lemma": true, "props": true, "requires": true,
-	"ensures": true, "nowrap": true, "nopanic": true, "theory": true, "inline": true, "pure": true,
+	"ensures": true, "nowrap": true, "nowrap-arith": true, "nopanic": true, "theory": true, "inline": true, "pure": true,
 	"modifies": true, "site": true, "covers-nonnil-returns": true, "loop": true, "let": true,
 	"trusted": true, "effect-free": true, "inline-pkg": true, "replay": true, "load-pkg": true, "inline-func": true, "axiom": true, "uses": true, "modifies-assumed": true,
 }
@@ -548,6 +549,9 @@ func ParseContractFile(path, pkgPath string) (*ContractFile, error) {
 			}{strings.TrimSpace(rc.text[:j]), c})
 		case "nowrap":
 			cur.NoWrap = true
+		case "nowrap-arith":
+			cur.NoWrap = true
+			cur.NoWrapArith = true
 		case "nopanic":
 			cur.NoPanic = true
 		case "theory":
